@@ -201,7 +201,8 @@ Agree(c, x) == Assert(c.size = x.size /\ c.cur = x.cur /\ (Bug = "none" => c.ws 
 Mech(c) == Agree(c, s') /\ waiters' = c.ws
 
 Post(x) == [size |-> x.size, cur |-> x.cur, wl |-> x.wl]
-Log(e) == hist' = IF KeepHist THEN Append(hist, e @@ [post |-> Post(s')]) ELSE hist
+Log(e) == /\ IF MaxOps = 0 THEN TRUE ELSE Len(hist) <= MaxOps   \* bound on exported behaviours
+          /\ hist' = IF KeepHist THEN Append(hist, e @@ [post |-> Post(s')]) ELSE hist
 
 Acquire(a) ==
     /\ St(s, a) = "new"
@@ -275,11 +276,10 @@ Init == /\ \E n \in InitSizes : s = S0(n) /\ hist = << [a |-> "Init", size |-> n
         /\ waiters = <<>>
         /\ nset = 0 /\ nforce = 0
 
-Next == /\ IF MaxOps = 0 THEN TRUE ELSE Len(hist) <= MaxOps
-        /\ \/ \E a \in Acqs : Acquire(a) \/ Try(a) \/ CancelWake(a) \/ CancelCS(a) \/ Wake(a) \/ Release(a)
-           \/ \E n \in Sizes : SetSize(n)
-           \/ \E n \in Forces : Force(n)
-           \/ Unforce
+Next == \/ \E a \in Acqs : Acquire(a) \/ Try(a) \/ CancelWake(a) \/ CancelCS(a) \/ Wake(a) \/ Release(a)
+        \/ \E n \in Sizes : SetSize(n)
+        \/ \E n \in Forces : Force(n)
+        \/ Unforce
 
 Spec == Init /\ [][Next]_vars
 Export == PrintT(<<"BEH", ToJson(hist')>>)
